@@ -205,6 +205,7 @@ class Machine:
         self.depth = 0
         self.max_depth = max_depth
         self.fit_cache = {}
+        self.lin_cache = {}
         self.excl = {}
         self.solver = z3.Solver()
         self.func_addr = {}
@@ -663,6 +664,15 @@ class Ops:
             return (None, None)
 
     def _lin(self, e):
+        k = e.get_id()
+        hit = self.lin_cache.get(k)
+        if hit is not None:
+            return hit[0]
+        r = self._lin1(e)
+        self.lin_cache[k] = (r, e)
+        return r
+
+    def _lin1(self, e):
         if z3.is_int_value(e):
             v = e.as_long()
             return (v, v)
